@@ -402,11 +402,55 @@ def runCase (xs : List Sx) : String :=
     | none => "bad-case parse"
   | _ => "bad-case op"
 
+/-! ### recursive items: `(mu CAP Name body)` with `(ref Name)` inside, unfolded at the S-expression
+level to the depth the case needs.  The universe of the model is recursion-free; an unfolding is an
+ordinary member of it, so every theorem applies to it.  The bottom of the unfolding is an enum without
+variants (it has no values and rejects every input); the depth is chosen so that it is never reached,
+and the result is required to be the same one level deeper. -/
+
+partial def substRef (name : String) (rep : Sx) : Sx → Sx
+  | .list [.atom "ref", .atom n] => if n == name then rep else .list [.atom "ref", .atom n]
+  | .list (.atom "mu" :: cap :: .atom n :: rest) =>
+    if n == name then .list (.atom "mu" :: cap :: .atom n :: rest)
+    else .list (.atom "mu" :: cap :: .atom n :: rest.map (substRef name rep))
+  | .list xs => .list (xs.map (substRef name rep))
+  | a => a
+
+partial def expandMu (d : Nat) : Sx → Sx
+  | .list [.atom "mu", .atom cap, .atom n, body] =>
+    let d' := min d (cap.toNat?.getD 0)
+    let body' := expandMu d body
+    let bottom := Sx.list [.atom "sum", .list [.atom "derivedsrc", .atom n, .atom "0", .atom "n"]]
+    (List.range d').foldl (fun acc _ => substRef n acc body') bottom
+  | .list xs => .list (xs.map (expandMu d))
+  | a => a
+
+partial def sxDepth : Sx → Nat
+  | .atom _ => 0
+  | .list xs => 1 + (xs.map sxDepth).foldl max 0
+
+partial def sxMaxHex : Sx → Nat
+  | .atom a => if a.startsWith "x" then (a.length - 1) / 2 else 0
+  | .list xs => (xs.map sxMaxHex).foldl max 0
+
+partial def sxHasMu : Sx → Bool
+  | .list (.atom "mu" :: _) => true
+  | .list xs => xs.any sxHasMu
+  | .atom _ => false
+
+def runLine (xs : List Sx) : String :=
+  if xs.any sxHasMu then
+    let d := max ((xs.map sxMaxHex).foldl max 0 + 2) ((xs.map sxDepth).foldl max 0)
+    let r1 := runCase (xs.map (expandMu d))
+    let r2 := runCase (xs.map (expandMu (d + 1)))
+    if r1 == r2 then r1 else "unfold-unstable " ++ r1 ++ " // " ++ r2
+  else runCase xs
+
 partial def loop (h : IO.FS.Stream) (out : IO.FS.Stream) : IO Unit := do
   let line ← h.getLine
   if line.isEmpty then return ()
   let r := match parseLine line with
-    | some xs => runCase xs
+    | some xs => runLine xs
     | none => "bad-case sexp"
   out.putStrLn r
   loop h out
